@@ -310,15 +310,15 @@ to them (several objects may share one list) and open oscillator streams: attrib
 the cached length, `self.cycles` and `self.table` once —, `histSpec` answers every use from the
 *current* table contents and the *current* `cycles`.  `denOf c` is the value of `c * 2 * pi`. -/
 
-/-- **C19.hist.0** the empty heap satisfies the invariant (no list is empty; every cached length is
-the length of the list it was taken from). -/
+/-- **C19.hist.0** the empty heap satisfies the invariant (no list is empty; every `_table` is a
+list; every cached length is the length of the list it was taken from). -/
 theorem hist_invariant_initial : WF ({ lists := [], objs := [], oscs := [] } : Heap K) :=
   ⟨by simp, by simp, by simp⟩
 
 /-- **C19.hist.1** the invariant is kept by every operation — assignments of either attribute,
 in-place item assignment, every operator, `normalize`, `harmonize`, calls, reads, and every
 *failing* operation — except the two that change the length of a list behind the object's back
-(`append`, `pop`: `HOp.safe`). -/
+(`append`, `pop`) and the assignment of something without a length to `table` (`HOp.safe`). -/
 theorem hist_invariant_preserved (denOf : K → K) (h : Heap K) (ops : List (HOp K)) (w : WF h)
     (hs : ∀ op ∈ ops, op.safe) : WF (runHeap denOf h ops) := runHeap_WF denOf ops h w hs
 
@@ -370,11 +370,27 @@ theorem hist_stream_isolated (denOf : K → K) (h : Heap K) (ops : List (HOp K))
   exact read_obs_congr denOf h _ s k o (some xs) ho hx a b
 
 /-- **C19.hist.5** a failing operation (ValueError of incompatible operands or of `normalize` on
-zeros, NotImplementedError for an unknown scalar type, IndexError, ZeroDivisionError) leaves the
-heap exactly as it was. -/
+zeros, NotImplementedError for an unknown scalar type, IndexError, ZeroDivisionError, TypeError on
+a broken object) leaves the heap exactly as it was — with one exception, forced: the `table`
+setter stores its argument *before* asking for its length, so `tl.table = <no len()>` raises
+TypeError with `_table` already replaced (defect D17, `example` below; the specification
+`specStep` leaves the object alone there). -/
 theorem hist_failing_step_changes_nothing (denOf : K → K) (h : Heap K) (op : HOp K) (e : String)
-    (he : (step denOf h op).2 = .err e) : (step denOf h op).1 = h :=
-  step_err_unchanged denOf h op e he
+    (hne : ¬ op.isUnsizedAssign) (he : (step denOf h op).2 = .err e) : (step denOf h op).1 = h :=
+  step_err_unchanged denOf h op e hne he
+
+/-- **C19.hist.5b** in the specification every failing operation, that assignment included,
+changes nothing. -/
+theorem hist_spec_failing_step_changes_nothing (denOf : K → K) (h : Heap K) (w : WF h) (op : HOp K)
+    (e : String) (he : (specStep denOf h op).2 = .err e) : (specStep denOf h op).1 = h := by
+  by_cases hu : op.isUnsizedAssign
+  · cases op <;> simp only [HOp.isUnsizedAssign] at hu
+    simp only [specStep]; split <;> rfl
+  · by_cases hs : op.safe
+    · rw [← step_eq_specStep denOf h op w hs] at he ⊢
+      exact step_err_unchanged denOf h op e hu he
+    · cases op <;> simp only [HOp.safe, HOp.isUnsizedAssign, not_true_eq_false, not_false_eq_true] at hs hu
+      all_goals exact step_err_unchanged denOf h _ e (by simp [HOp.isUnsizedAssign]) he
 
 /-- **C19.hist.6** uses are pure: reading a stream, `tl[idx]`, `len`, `==` and looking at the table
 change no list and no object. -/
@@ -412,6 +428,16 @@ example : histModel (fun c : Rat => c) { lists := [], objs := [], oscs := [] }
     histSpec (fun c : Rat => c) { lists := [], objs := [], oscs := [] }
       [.newList [0, 10, 20, 30], .new 0 4, .append 0 40, .call 0 (.num (1/2)) (.num 0), .read 0 8, .len 0]
     = [.ref 0, .ref 0, .unit, .ref 0, .samples [0, 25/4, 25/2, 75/4, 25, 125/4, 75/2, 25] "fuel", .nat 5] := by
+  decide +kernel
+
+-- D17: the failing assignment is not atomic in the code as written — afterwards the object's
+-- table cannot be read any more, while the specification leaves it as it was
+example : histModel (fun c : Rat => c) { lists := [], objs := [], oscs := [] }
+      [.newList [0, 10], .new 0 1, .setTableUnsized 0, .table 0, .len 0]
+    = [.ref 0, .ref 0, .err "TypeError", .err "TypeError", .nat 2] ∧
+    histSpec (fun c : Rat => c) { lists := [], objs := [], oscs := [] }
+      [.newList [0, 10], .new 0 1, .setTableUnsized 0, .table 0, .len 0]
+    = [.ref 0, .ref 0, .err "TypeError", .table [0, 10] 1, .nat 2] := by
   decide +kernel
 
 end ALV.Props.C19
